@@ -35,6 +35,7 @@ def gen_script(rng, max_gates=24, max_in=6, max_ff=3, p_glitchy=0.2, style=None,
     ffs = []
     for _ in range(n_ff):
         ffs.append([rng.choice(['dff', 'DFF', 'DFFX1', 'dff', 'latch', 'LATCH', 'SDFFX1', 'sdffr', 'AODFFARX1_RVT', 'DLATCH', 'tlatch']), rng.randrange(1 << 16), rng.random() < 0.3])
+        if ffs[-1][2] and rng.random() < 0.15: ffs[-1][1] = None      # data pin open, clock pin connected
     gates = []
     n_sig = n_in + n_fl + 2 * n_ff
     unread = list(range(n_in)) + list(range(n_in + n_fl, n_sig))
@@ -70,6 +71,8 @@ def gen_script(rng, max_gates=24, max_in=6, max_ff=3, p_glitchy=0.2, style=None,
                 s = rng.randrange(n_sig)
             if s in unread: unread.remove(s)
             srcs.append(s)
+        if len(srcs) >= 2 and rng.random() < 0.04:
+            srcs[rng.randrange(len(srcs) - 1)] = None      # a pin left open BEFORE a connected one (reads 0, like a trailing one)
         gates.append([spell(rng, kind, n), srcs, rng.choice([0, 0, 2, 2, 1])])
         unread.append(n_sig)
         n_sig += 1
@@ -144,11 +147,11 @@ def build(script):
         gate_nodes.append(n)
         avail = n_base + j
         for pin, s in enumerate(srcs):
-            readers[s % avail].append((n, pin))
+            if s is not None: readers[s % avail].append((n, pin))
         prod.append((n, 0)); names.append(f'g{j}')
     n_sig = len(prod)
     for j, (kind, dsrc, has_clk) in enumerate(script['ffs']):
-        readers[dsrc % n_sig].append((ff_nodes[j], 0))
+        if dsrc is not None: readers[dsrc % n_sig].append((ff_nodes[j], 0))
     if script['ffs'] and any(f[2] for f in script['ffs']):
         for j, (kind, dsrc, has_clk) in enumerate(script['ffs']):
             if has_clk: readers[0].append((ff_nodes[j], 1))  # clock pin from input 0 (ignored by simulators)
